@@ -6,7 +6,7 @@ from hypothesis import strategies as st
 
 ALL_ASCII = [chr(i) for i in range(128)]
 HOT_ASCII = list("%%%% /?#@:&=+;[]\\\"<>^`{|}'!$()*,~._-") + ["\x00", "\x01", "\t", "\n", "\r", "\x1f", "\x7f"]
-UNI_REPS = [
+UNI_REPS = ["\u0664\u0662", "\uff14\uff12", "\xb2", "\u0967",
     "\x80", "\xa0", "\xe9", "\xdf", "İ", "߿", "ࠀ", "€", "​", "﻿", "￿", "�",
     "\U00010000", "\U0001f600", "\U0010ffff", "́", "\u0085", " ", "／", "？", "＃", "＠",
     "：", "℀", "⁈", "\uff3b", "\uff3d", "\ufe47", "\ufe48", "а", "中", "א", "ا",
@@ -104,7 +104,7 @@ def ascii_label():
 
 
 IDN_LABELS = ["пример", "испытание", "münchen", "bücher", "例え", "español", "ελληνικά", "straße", "faß", "☃", "İstanbul", "ǅ", "xn--n3h", "xn--e1afmkfd",
-              "Bücher", "ПРИМЕР", "XN--N3H", "Xn--e1afmkfd", "xN--BCHER-KVA", "WWW.XN--BCHER-KVA", "تجربة", "परीक्षा", "áb", "ȡog", "√", "ᴬb", "日本語"]
+              "Bücher", "ПРИМЕР", "\uff45xample", "cafe\u0301", "\ufb01le", "\u212bngstrom", "XN--N3H", "Xn--e1afmkfd", "xN--BCHER-KVA", "WWW.XN--BCHER-KVA", "تجربة", "परीक्षा", "áb", "ȡog", "√", "ᴬb", "日本語"]
 SUBDELIM_LABELS = ["a!b", "a$b", "a&b", "a'b", "(a)", "a*b", "a+b", "a,b", "a;b", "a=b", "a~b", "a_b", "%41b", "%c3%a9", "%7e"]
 
 
